@@ -58,8 +58,8 @@ def decorate(rng, kinds):
             while f"{k}.{i}" in used or rng.random() < 0.2:
                 i += 1
             name = f"{k}.{i}" if rng.random() < 0.8 else f"{k}.s{i}"
-            if name in used:
-                name = f"{k}.{i}.x"
+            while name in used:  # step names are dictionary keys: always distinct
+                name = name + ".x"
         used.add(name)
         out.append(name)
     return out
